@@ -420,25 +420,40 @@ def stepE (r : Fin n) (s : St n) : Ev n → Option (St n)
 
 /-! ### Protocol thread -/
 
-def stepP (r : Fin n) (s : St n) : Ev n → Option (St n)
-  | .pWr x b =>
-      if s.pOut = [] ∧ (getReg s x).nxt = none then
-        match x with
-        | .hold => none
-        | .quit => if b = true ∧ s.search.cur = false ∧ s.search.nxt = none then some (setReg s x ((getReg s x).wr b)) else none
-        | .search => if b = true ∧ s.search.cur = false then some (setReg s x ((getReg s x).wr b)) else none
-        | _ => some (setReg s x ((getReg s x).wr b))
-      else none
-  | .pWd x =>
-      match (getReg s x).nxt with
+/-- P stores to an atomic flag: window opens (`pWr`, logged before the store) -/
+def stepPWr (s : St n) : Var → Bool → Option (St n)
+  | .ponder, b => if s.pOut = [] ∧ s.ponder.nxt = none then some { s with ponder := s.ponder.wr b } else none
+  | .infinite, b => if s.pOut = [] ∧ s.infinite.nxt = none then some { s with infinite := s.infinite.wr b } else none
+  | .quit, b =>
+      -- EngineMainThread::quit, only after stopSearch()/waitStop()
+      if s.pOut = [] ∧ s.quitF.nxt = none ∧ b = true ∧ s.search.cur = false ∧ s.search.nxt = none then
+        some { s with quitF := s.quitF.wr true } else none
+  | .search, b =>
+      -- EngineMainThread::startSearch (E.mutex), only after waitStop() and never after quit
+      if s.pOut = [] ∧ s.search.nxt = none ∧ b = true ∧ s.search.cur = false ∧ s.quitF.cur = false ∧ s.quitF.nxt = none then
+        some { s with search := s.search.wr true } else none
+  | .hold, _ => none
+
+/-- the store has happened (`pWd`, logged after it) -/
+def stepPWd (r : Fin n) (s : St n) : Var → Option (St n)
+  | .ponder => match s.ponder.nxt with
+      | some b => some { s with ponder := { s.ponder with cur := b, nxt := none } }
       | none => none
-      | some b =>
-        let s1 := setReg s x { (getReg s x) with cur := b, nxt := none }
-        match x with
-        | .hold => none
-        | .quit => some { s1 with pOut := [Out.notify r] }           -- EngineMainThread::quit
-        | .search => some { s1 with pOut := [Out.notify r], goCount := s1.goCount + 1, epoch := s1.epoch + 1 }  -- startSearch
-        | _ => some s1
+  | .infinite => match s.infinite.nxt with
+      | some b => some { s with infinite := { s.infinite with cur := b, nxt := none } }
+      | none => none
+  | .quit => match s.quitF.nxt with
+      | some b => some { s with quitF := { s.quitF with cur := b, nxt := none }, pOut := [Out.notify r] }
+      | none => none
+  | .search => match s.search.nxt with
+      | some b => some { s with search := { s.search with cur := b, nxt := none }, pOut := [Out.notify r],
+                                goCount := s.goCount + 1, epoch := s.epoch + 1 }
+      | none => none
+  | .hold => none
+
+def stepP (r : Fin n) (s : St n) : Ev n → Option (St n)
+  | .pWr x b => stepPWr s x b
+  | .pWd x => stepPWd r s x
   | .pWaitStop => if s.search.cur = false ∧ s.search.nxt = none then some s else none
   | .pWaitOpts => if s.optsFin = true then some s else none
   | .pSetOpt => if s.pOut = [] then some { s with pend := true, optsFin := false, pOut := [Out.notify r] } else none
